@@ -133,7 +133,8 @@ PROPS["C07"] = {
 }
 PROPS["C08"] = {
     "lean_module": "LispModel.Props.C08",
-    "engines": [{"name": "tail", "quick": 1200, "thorough": 20000}],
+    "engines": [{"name": "tail", "quick": 1200, "thorough": 20000},
+                {"name": "tailconc", "quick": 1, "thorough": 1, "deterministic": True}],
     "technique": "Lean 4 theorems about the EVAL-frame depth carried by the evaluator model + depth! marks compared with runtime.Callers frame counts",
     "level_text": "PARTIAL: 'no additional host stack' is proved as 'no additional EVAL activation': every tail-position construct continues the loop at the same "
                   "depth; the tie demands equality of the model's depth with the number of lisp.EVAL frames counted on the real stack at every depth! mark.",
@@ -177,7 +178,8 @@ PROPS["C20"] = {
     "lean_module": "LispModel.Props.C20",
     # the code before the repairs 2f9941a / e281c62, frozen, with the two findings proved against it: rebuilt on every run
     "tie_modules": ["LispModel.Proofs.CallBaseline"],
-    "engines": [{"name": "call", "quick": 20000, "thorough": 300000}],
+    "engines": [{"name": "call", "quick": 20000, "thorough": 300000},
+                {"name": "callsib", "quick": 600, "thorough": 20000}],
     "technique": "Lean 4 theorems about the model of lib/call (name derivation, bound selection, _args/_args_ctx, reflect.Call's checks, "
                  "adapters, _recover) against the binder contract + differential correspondence of call.Call/CallOverrideFN",
     "level_text": "Kernel-checked, full strength: entered <-> admissible (binder_contract), the class of the error otherwise, arguments verbatim, "
